@@ -5,6 +5,8 @@ CONSTANTS
   R = 4
   Branch = "x64"
   UnmapRejected = TRUE
+  Kernel = "mmap"
+  Gran = 1
   AcceptTest = "le"
 INVARIANT InReach NoLeftover Bounded
 PROPERTY Terminates
